@@ -6,6 +6,7 @@ C03 - what is documented in each namespace is what Python defines there.  Claime
   R03.4 Documentable.docstring is only assigned cleaned / live / literal values
   R03.5 the `__main__` guard is recognised by equality only
   R03.6 an existing Function object is re-entered only for overloads
+  R03.7 the walk descends into every block executed in addition to the body (loop/try else, finally)
 Does not decide: the differential statement against the interpreter (members, docstrings, kinds for every program).
 """
 from __future__ import annotations
@@ -219,3 +220,29 @@ def run(repo: Repo, chk: Check, thorough: bool = False) -> None:
                'a redefinition re-enters the old Function object: the second definition keeps the first one\'s docstring and kind '
                '(nothing is created for it)', repo.loc(hf.mod, c))
     chk.require('R03.6', 1)
+
+    # ------------------------------------------------------------------ R03.7
+    # statement-list fields of the compound statements (oracle: the ast module of the running interpreter).  The builder's walk must
+    # descend into every block that is executed *in addition to* the body when the code is imported: the `else` of a loop / try and
+    # the `finally` block.  (`If.orelse` is the branch not taken and `handlers` only run on an exception - both stay out by design.)
+    gc = repo.func('pydoctor.astutils.NodeVisitor.get_children')
+    fields_read = {c.args[1].value for c in calls_in(gc) if call_name(c) == 'getattr' and len(c.args) >= 2 and isinstance(c.args[1], ast.Constant)} | \
+        {n.attr for n in gc.walk() if isinstance(n, ast.Attribute) and isinstance(n.value, ast.Name) and n.value.id == gc.params()[1].arg} | \
+        {e.value for n in gc.walk() if isinstance(n, (ast.Tuple, ast.List, ast.Set)) for e in n.elts if isinstance(e, ast.Constant) and isinstance(e.value, str)}
+    if 'body' not in fields_read:
+        raise AnalysisError('R03.7: NodeVisitor.get_children no longer reads the `body` field')
+    additional = {}
+    for nm in ('Try', 'TryStar', 'For', 'AsyncFor', 'While'):
+        k_ = getattr(ast, nm, None)
+        if k_ is None:
+            continue
+        for fld in k_._fields:
+            if fld in ('orelse', 'finalbody'):
+                additional.setdefault(fld, []).append(nm)
+    for fld, owners in sorted(additional.items()):
+        chk.ob('R03.7', f'astutils.NodeVisitor.get_children :: the `{fld}` block is walked', fld in fields_read,
+               f'executed on import in addition to the body ({", ".join(owners)})' if fld in fields_read else
+               f'definitions in the `{fld}` block of {", ".join(owners)} are never visited: a function / class / variable bound there on import is '
+               'missing from the documentation', gc.loc)
+    chk.require('R03.7', 2)
+
